@@ -3371,7 +3371,15 @@ impl SctpInner {
         let mut expiry: Option<Instant> = None;
 
         let (_guard, ssn) = if let Some(dc) = &dc_opt {
-            let guard = dc.send_lock.lock().await;
+            // DCEP OPEN / ACK are unordered single-chunk messages (no SSN to allocate) and are
+            // sent from the association's run loop. They must not wait for the channel's send
+            // lock: an application sender parked on the buffered-amount gate holds it, and only
+            // the run loop can release that gate.
+            let guard = if is_dcep {
+                None
+            } else {
+                Some(dc.send_lock.lock().await)
+            };
             ordered = if is_dcep { false } else { dc.ordered };
             let ssn = if ordered {
                 dc.next_ssn.fetch_add(1, Ordering::SeqCst)
@@ -3389,7 +3397,7 @@ impl SctpInner {
                     self.has_pr_sctp.store(true, Ordering::Relaxed);
                 }
             }
-            (Some(guard), ssn)
+            (guard, ssn)
         } else {
             // Check if we should error if channel not found or not open
             // Existing logic didn't return early if dc_opt is None?
